@@ -42,7 +42,8 @@ CATS = ["a", "b", "c", "NaN", "dd"]
 
 # the one quantity shape used everywhere (self-contained: picklable through marshal)
 def _cell(d, col):
-    v = d[col]
+    # a record is a list of cells (row-wise fill) or a numpy record array with fields c0..c7 (fill.numpy)
+    v = d[col] if isinstance(d, (list, tuple)) else d["c%d" % col]
     if v is RAISES:
         raise Boom("quantity raised")
     return v
